@@ -104,7 +104,30 @@ const POOL: &[char] = &[
     '\u{017F}', '\u{0301}', '\u{200B}', '😀', '𝟘', 'Ⅷ', '²', '½',
 ];
 
+/// a long digit run (around and beyond the u32 / u64 / u128 boundaries), often with leading zeros
+pub fn long_digits(rng: &mut StdRng) -> String {
+    let zeros = [0, 0, 1, 2, 5][rng.gen_range(0..5)];
+    let len = [9, 10, 11, 19, 20, 21, 25, 39, 40][rng.gen_range(0..9)];
+    let mut s = "0".repeat(zeros);
+    for i in 0..len {
+        s.push(char::from(b'0' + if i == 0 { rng.gen_range(1..10) } else { rng.gen_range(0..10) }));
+    }
+    s
+}
+
 pub fn random_text(rng: &mut StdRng, max: usize) -> String {
+    let base = random_text_short(rng, max);
+    if rng.gen_bool(0.12) {
+        // splice a long digit run in, as its own segment or glued to its neighbours
+        let cut = base.char_indices().map(|(i, _)| i).nth(rng.gen_range(0..=base.chars().count().min(8))).unwrap_or(base.len());
+        let sep = ["", "/", ".", "-"][rng.gen_range(0..4)];
+        format!("{}{}{}{}{}", &base[..cut], sep, long_digits(rng), sep, &base[cut..])
+    } else {
+        base
+    }
+}
+
+fn random_text_short(rng: &mut StdRng, max: usize) -> String {
     let n = rng.gen_range(0..=max);
     (0..n)
         .map(|_| {
